@@ -48,7 +48,7 @@ QUICK_ALPHABET = ['X1', 'Y1', 'XY', 'EMPTY', 'BADJSON', 'BADPERM', 'RESERVED', '
 def plan(tier):
     depth = 4 if tier == 'quick' else 5
     return {
-        'level': 'exploration', 'shards': 16, 'budget_s': 80 if tier == 'quick' else 1800, 'exhaustive': True,
+        'level': 'exploration', 'shards': 16, 'budget_s': 120 if tier == 'quick' else 1800, 'exhaustive': True,
         'rule': 'exhaustive sequences of file events {write(file in a,b,c; content class), remove(file)} each '
                 'followed by a real scan_policies() on a real directory with strictly increasing mtimes, to depth 4 '
                 'over the first two files and 8 content classes (quick) / to depth 4 over three files and to depth %d over '
